@@ -119,6 +119,7 @@ partial def parseField (ks : Kinds) (j : Json) : R Field := do
   | "error" => return .error k (← parseErrV (← fld j "e"))
   | "ns" => return .ns k
   | "skip" => return .skip
+  | "errors" => return errorsField k (← (arrD j "errs").toList.mapM parseErrV)
   | "dict" =>
     let fs ← (arrD j "fields").toList.mapM (parseField ks)
     -- zap.Dict = Object(key, marshaler that AddTo's each field)
